@@ -78,6 +78,10 @@ namespace sse
         std::map<std::size_t, fs::node_status> mp;
         mp[0] = fs::node_status::fixed_value;
         mp[4] = fs::node_status::fixed_gradient;
+        if (g.smode == 3)
+            mp[2] = fs::node_status::looped;  // must be rejected
+        if (g.smode == 4)
+            mp[9] = fs::node_status::core;  // out-of-range key: must be rejected
         return fs::trimesh(pts, tri, mp);
     }
 
